@@ -1031,6 +1031,153 @@ Proof.
 Qed.
 
 (* ============================================================================================
+   G. views are values: a history of New / ChangeDir / Open / Stat / ReadDir on any number of
+      views never changes what an existing view answers *)
+
+(* the translation of ChangeDir this development is proved for: a new object, every field the
+   receiver's but workingDir, which is the parameter as given *)
+Lemma gen_chdir_tie :
+  Gen.CasFs.chdir_fresh = true /\ Gen.CasFs.chdir_wd = 0
+  /\ Gen.CasFs.view_fields = ["c"; "root"; "directories"; "workingDir"]%string.
+Proof. repeat split; reflexivity. Qed.
+
+Lemma chdir_wd_param old d : chdir_wd old d = d.
+Proof. reflexivity. Qed.
+
+Lemma fs_wd_chdir d : fs_wd (WChdir d) = d.
+Proof. reflexivity. Qed.
+
+(* ChangeDir: the store grows by one object, the receiver included is left as it was; the result
+   is the handle of the NEW object, whose value is the receiver's Tree at the given directory *)
+Lemma step_chdir st h v d : nth_error st h = Some v ->
+  step st (VChdir h d) = (st ++ [(fst v, d)], BView (length st)).
+Proof.
+  intros Hv. cbn [step]. rewrite Hv. change Gen.CasFs.chdir_fresh with true. cbv iota.
+  rewrite chdir_wd_param. reflexivity.
+Qed.
+
+Lemma step_extends st op : exists ext, fst (step st op) = st ++ ext.
+Proof.
+  destruct op as [h d|h q].
+  - destruct (nth_error st h) as [v|] eqn:Hv.
+    + rewrite (step_chdir st h v d Hv). eexists. reflexivity.
+    + cbn [step]. rewrite Hv. exists []. cbn [fst]. rewrite app_nil_r. reflexivity.
+  - exists []. cbn [step fst]. rewrite app_nil_r. reflexivity.
+Qed.
+
+Lemma run_cons st op ops :
+  run st (op :: ops) = (fst (run (fst (step st op)) ops), snd (step st op) :: snd (run (fst (step st op)) ops)).
+Proof.
+  cbn [run]. destruct (step st op) as [st1 ob]. cbn [fst snd]. destruct (run st1 ops) as [st2 obs]. reflexivity.
+Qed.
+
+(* invariant over histories: the store only ever grows at its end *)
+Lemma run_extends ops : forall st, exists ext, fst (run st ops) = st ++ ext.
+Proof.
+  induction ops as [|op ops IH]; intros st.
+  - exists []. cbn [run fst]. rewrite app_nil_r. reflexivity.
+  - rewrite run_cons. cbn [fst]. destruct (step_extends st op) as (e1 & E1). rewrite E1.
+    destruct (IH (st ++ e1)) as (e2 & E2). rewrite E2. exists (e1 ++ e2). rewrite app_assoc. reflexivity.
+Qed.
+
+Lemma nth_error_app_some {A} (l e : list A) h v : nth_error l h = Some v -> nth_error (l ++ e) h = Some v.
+Proof.
+  intros H. rewrite nth_error_app1; [exact H|]. apply nth_error_Some. congruence.
+Qed.
+
+(* FRAME: whatever is done to whichever view, an existing object keeps its value ... *)
+Lemma run_frame st ops h v : nth_error st h = Some v -> nth_error (fst (run st ops)) h = Some v.
+Proof.
+  intros H. destruct (run_extends ops st) as (ext & ->). apply nth_error_app_some. exact H.
+Qed.
+
+(* ... and therefore its answers *)
+Lemma ask_frame st pre h v q : nth_error st h = Some v -> ask (fst (run st pre)) h q = answer v q.
+Proof. intros H. unfold ask. rewrite (run_frame st pre h v H). reflexivity. Qed.
+
+Lemma ask_frame' st pre h q : h < length st -> ask (fst (run st pre)) h q = ask st h q.
+Proof.
+  intros H. destruct (nth_error st h) as [v|] eqn:Hv.
+  - rewrite (ask_frame st pre h v q Hv). unfold ask. rewrite Hv. reflexivity.
+  - apply nth_error_None in Hv. lia.
+Qed.
+
+(* the view made by New answers, after ANY history, exactly what fs_open / fs_stat / ReadDir
+   of (t, w) say - the functions clauses 1-5 of the statement are about *)
+Lemma root_view_stable t w pre q : ask (fst (run [new_view t w] pre)) 0 q = answer (new_view t w) q.
+Proof. apply ask_frame. reflexivity. Qed.
+
+Lemma answer_open t w name : answer (new_view t w) (QOpen name) = BOpen (observe t (fs_open t w name)).
+Proof. reflexivity. Qed.
+Lemma answer_stat t w name : answer (new_view t w) (QStat name) = BStat (fs_stat t w name).
+Proof. reflexivity. Qed.
+
+(* the sub-view ChangeDir returns is the view WChdir d, and stays it *)
+Lemma sub_view_stable t w pre d post q :
+  let st1 := fst (run [new_view t w] pre) in
+  step st1 (VChdir 0 d) = (st1 ++ [new_view t (WChdir d)], BView (length st1))
+  /\ ask (fst (run (st1 ++ [new_view t (WChdir d)]) post)) (length st1) q = answer (new_view t (WChdir d)) q
+  /\ ask (fst (run (st1 ++ [new_view t (WChdir d)]) post)) 0 q = answer (new_view t w) q.
+Proof.
+  intros st1. assert (H0 : nth_error st1 0 = Some (new_view t w)) by (apply run_frame; reflexivity).
+  split; [exact (step_chdir st1 0 _ d H0)|]. split.
+  - apply ask_frame. rewrite nth_error_app2 by lia. rewrite Nat.sub_diag. reflexivity.
+  - apply ask_frame. apply nth_error_app_some. exact H0.
+Qed.
+
+(* every answer given at any time during a history is the answer the same view gives at the end of it *)
+Definition stable_obs (st' : store) (op : vop) (ob : vobs) : Prop :=
+  ob = BNoView \/
+  match op with
+  | VAsk h q => ob = ask st' h q
+  | VChdir h d => exists h' v, ob = BView h' /\ h' <> h /\ nth_error st' h = Some v
+                               /\ nth_error st' h' = Some (fst v, d)
+  end.
+
+Lemma answers_stable ops : forall st, Forall2 (stable_obs (fst (run st ops))) ops (snd (run st ops)).
+Proof.
+  induction ops as [|op ops IH]; intros st; [constructor|].
+  rewrite run_cons. cbn [fst snd]. constructor; [|apply IH].
+  destruct op as [h d|h q].
+  - destruct (nth_error st h) as [v|] eqn:Hv.
+    + right. rewrite (step_chdir st h v d Hv). cbn [fst snd].
+      exists (length st), v. split; [reflexivity|].
+      split; [intros <-; assert (length st < length st) by (apply nth_error_Some; congruence); lia|].
+      split; apply run_frame; [apply nth_error_app_some; exact Hv|].
+      rewrite nth_error_app2 by lia. rewrite Nat.sub_diag. reflexivity.
+    + left. cbn [step]. rewrite Hv. reflexivity.
+  - cbn [step fst snd]. unfold ask at 1. destruct (nth_error st h) as [v|] eqn:Hv; [|left; reflexivity].
+    right. symmetry. apply ask_frame. exact Hv.
+Qed.
+
+Definition views_are_values (t : tree) : Prop :=
+  (* the view made by New(c, t, w): after any history it answers as Open/Stat/ReadDir of (t, w) *)
+  (forall w pre q, ask (fst (run [new_view t w] pre)) 0 q = answer (new_view t w) q)
+  (* any store, any view, any history: an existing view keeps its value and its answers *)
+  /\ (forall st pre h v, nth_error st h = Some v ->
+        nth_error (fst (run st pre)) h = Some v /\ forall q, ask (fst (run st pre)) h q = answer v q)
+  (* ChangeDir returns a NEW view over the receiver's Tree at the given directory; the receiver
+     and every other view are untouched *)
+  /\ (forall st h v d, nth_error st h = Some v ->
+        step st (VChdir h d) = (st ++ [(fst v, d)], BView (length st)))
+  (* every observation made during a history is what the same view answers at its end *)
+  /\ (forall st ops, Forall2 (stable_obs (fst (run st ops))) ops (snd (run st ops))).
+
+Lemma views_are_values_holds t : views_are_values t.
+Proof.
+  split; [|split; [|split]].
+  - intros w pre q. apply root_view_stable.
+  - intros st pre h v Hv. split; [apply run_frame; exact Hv|]. intros q. apply ask_frame. exact Hv.
+  - intros st h v d Hv. apply step_chdir. exact Hv.
+  - intros st ops. apply answers_stable.
+Qed.
+
+(* the statement's clause for the ill case is not vacuous: an in-place ChangeDir WOULD break it *)
+Lemma set_nth_breaks_frame t :
+  nth_error (set_nth [new_view t (WNew dot)] 0 (t, s "out")) 0 <> Some (new_view t (WNew dot)).
+Proof. cbn. intros E. inversion E. Qed.
+
+(* ============================================================================================
    The parts of the statement, and their proofs *)
 
 Definition faithful_view (t : tree) : Prop :=
@@ -1144,15 +1291,16 @@ Proof. intros w name e o Hf Hl Ho. eapply stat_open_nonlink; eauto. Qed.
 (* the full statement is false: the two io/fs contracts above *)
 Lemma statement_refuted :
   ~ (forall t, wf_tree t ->
-       faithful_view t /\ fails_cleanly t /\ readdir_contract /\ rejects_invalid_names t /\ stat_agrees_with_open t).
+       faithful_view t /\ fails_cleanly t /\ readdir_contract /\ rejects_invalid_names t /\ stat_agrees_with_open t
+       /\ views_are_values t).
 Proof. intros H. destruct (H ex_tree ex_tree_wf) as (_ & _ & _ & H4 & _). exact (invalid_name_accepted H4). Qed.
 
 Lemma statement_partial :
   forall t, wf_tree t ->
-    faithful_view t /\ fails_cleanly t /\ readdir_contract /\ stat_agrees_with_open_nonlink t.
+    faithful_view t /\ fails_cleanly t /\ readdir_contract /\ stat_agrees_with_open_nonlink t /\ views_are_values t.
 Proof.
   intros t Hwf. split; [apply faithful_view_holds; exact Hwf|]. split; [apply fails_cleanly_holds; exact Hwf|].
-  split; [apply readdir_contract_holds|apply stat_agrees_nonlink_holds].
+  split; [apply readdir_contract_holds|]. split; [apply stat_agrees_nonlink_holds|apply views_are_values_holds].
 Qed.
 
 (* ---- non-vacuity on the concrete tree ---- *)
